@@ -23,6 +23,8 @@ pub struct Replay {
     pub features: String,
     pub program: Program,
     pub violation: Violation,
+    #[serde(default)]
+    pub retry_need: Option<RetryInfo>,
 }
 
 #[derive(Serialize, Deserialize, Default)]
@@ -133,6 +135,7 @@ fn campaign(args: &[String]) -> i32 {
                 features: features(),
                 program: p.clone(),
                 violation: v.clone(),
+                retry_need: None,
             };
             if let Some(f) = viol_f.as_mut() {
                 // a later crash of this process (e.g. heap corruption caused by this very
@@ -182,7 +185,8 @@ fn replay(args: &[String]) -> i32 {
     let rp = load(&args[0]);
     let check = arg(args, "--check").unwrap_or(rp.check.clone());
     let log = args.iter().any(|a| a == "--log");
-    let r = run_program(&rp.program, &RunOpts { log, ..Default::default() });
+    let retry = rp.check == "C14";
+    let r = run_program(&rp.program, &RunOpts { log, retry_target: retry, retry_need: rp.retry_need, ..Default::default() });
     if let Some(l) = &r.log {
         for line in l {
             println!("{}", line);
@@ -205,7 +209,7 @@ fn replay(args: &[String]) -> i32 {
 }
 
 fn fails(p: &Program, want: &Violation, check: &str) -> Option<Violation> {
-    let r = run_program(p, &RunOpts::default());
+    let r = run_program(p, &RunOpts { retry_target: check == "C14" && want.class != "retry-fails", ..Default::default() });
     same_failure(want, check, &r.violations)
 }
 
@@ -282,6 +286,155 @@ fn shrink(args: &[String]) -> i32 {
     0
 }
 
+#[derive(Serialize, Deserialize, Default)]
+struct SweepResult {
+    check: String,
+    seed: u64,
+    programs: u64,
+    skipped: u64,
+    runs: u64,
+    steps: u64,
+    capacity_points: u64,
+    terminal_capacity_points: u64,
+    oom_runs: u64,
+    retry_checked: u64,
+    nontrivial_digests: Vec<String>,
+    stats: Stats,
+    violations: Vec<Replay>,
+    other_violations: std::collections::BTreeMap<String, u64>,
+    samples: Vec<serde_json::Value>,
+    targets: std::collections::BTreeMap<String, u64>,
+    wall_s: f64,
+}
+
+fn instr_variant(i: &Instr) -> String {
+    let s = format!("{:?}", i);
+    s.split(|c: char| !c.is_alphanumeric()).next().unwrap_or("?").to_string()
+}
+
+/// C14: for every generated program, learn its peak slot usage with ample capacity, then
+/// re-run it once for every capacity 0..=peak (and every terminal capacity for MTBDDs)
+fn sweep(args: &[String]) -> i32 {
+    let check = "C14".to_string();
+    let seed: u64 = arg(args, "--seed").map(|s| s.parse().unwrap()).unwrap_or(1);
+    let from: u64 = arg(args, "--from").map(|s| s.parse().unwrap()).unwrap_or(0);
+    let to: u64 = arg(args, "--to").map(|s| s.parse().unwrap()).unwrap_or(10);
+    let offset: u64 = arg(args, "--offset").map(|s| s.parse().unwrap()).unwrap_or(0);
+    let out = arg(args, "--out");
+    let mut prog_f = arg(args, "--progress").map(|p| std::fs::OpenOptions::new().create(true).append(true).open(p).unwrap());
+    let mut viol_f = arg(args, "--viol-file").map(|p| std::fs::OpenOptions::new().create(true).append(true).open(p).unwrap());
+    let mut bs = batches(&check);
+    if let Some(ks) = arg(args, "--kinds") {
+        let want: Vec<Kind> = ks.split(',').filter_map(Kind::parse).collect();
+        for b in bs.iter_mut() {
+            b.opts.kinds.retain(|k| want.contains(k));
+        }
+        bs.retain(|b| !b.opts.kinds.is_empty());
+    }
+    let t0 = std::time::Instant::now();
+    let mut res = SweepResult { check: check.clone(), seed, ..Default::default() };
+    'outer: for run0 in from..to {
+        let run = run0 + offset;
+        let b = batch_for_run(&bs, run);
+        let mut p = gen_sweep_program(seed, run, &b.opts);
+        if !kind_supported(p.config.kind) || cfg!(feature = "pointer") {
+            res.skipped += 1;
+            continue;
+        }
+        if let Some(f) = prog_f.as_mut() {
+            let _ = writeln!(f, "BEGIN {} {}", seed, run);
+            let _ = f.flush();
+        }
+        // 1. ample capacity: must be clean; learn the peaks and what the retry needs
+        p.config.capacity = 1 << 16;
+        p.config.term_capacity = 4096;
+        p.config.oom_ok = false;
+        p.config.probe = false;
+        let ample = run_program(&p, &RunOpts { retry_target: true, ..Default::default() });
+        res.runs += 1;
+        res.steps += ample.steps as u64;
+        if let Some(v) = ample.violations.first() {
+            *res.other_violations.entry(format!("{}:{}", v.props.join("+"), v.class)).or_default() += 1;
+            continue;
+        }
+        res.programs += 1;
+        *res.targets.entry(p.instrs.last().map(instr_variant).unwrap_or_default()).or_default() += 1;
+        let need = ample.retry;
+        let lo = if p.config.kind == Kind::Zbdd { b.opts.max_vars + 1 } else { 0 };
+        // capacities >= 100 enable the background collector thread, whose schedule E1 does
+        // not control (that is engine E2's business): sweep up to 99 only
+        let hi = (ample.peak_inner as u32 + 1).min(99);
+        let mut points: Vec<(u32, u32)> = (lo..=hi).map(|c| (c, 4096)).collect();
+        if matches!(p.config.kind, Kind::MtbddI | Kind::MtbddF) {
+            for t in 0..=(ample.peak_terms as u32 + 1) {
+                points.push((1 << 16, t));
+            }
+        }
+        let mut any_oom = false;
+        for (c, t) in points {
+            let mut q = p.clone();
+            q.config.capacity = c;
+            q.config.term_capacity = t;
+            q.config.oom_ok = true;
+            q.config.probe = c < 100;
+            let r = run_program(&q, &RunOpts { retry_target: true, retry_need: need, ..Default::default() });
+            res.runs += 1;
+            res.steps += r.steps as u64;
+            if t == 4096 {
+                res.capacity_points += 1
+            } else {
+                res.terminal_capacity_points += 1
+            }
+            let ooms = r.stats.get("fault.oom_result");
+            if ooms > 0 {
+                res.oom_runs += 1;
+                any_oom = true;
+            }
+            if r.retry.is_some() && need.is_some() {
+                res.retry_checked += 1;
+            }
+            res.stats.merge(&r.stats);
+            if let Some(v) = relevant(&check, &r.violations) {
+                let rp = Replay {
+                    engine: "E1".into(),
+                    check: check.clone(),
+                    seed,
+                    run,
+                    batch: "sweep".into(),
+                    features: features(),
+                    program: q.clone(),
+                    violation: v.clone(),
+                    retry_need: need,
+                };
+                if let Some(f) = viol_f.as_mut() {
+                    let _ = writeln!(f, "{}", serde_json::to_string(&rp).unwrap());
+                    let _ = f.flush();
+                }
+                res.violations.push(rp);
+                if res.violations.len() >= 3 {
+                    break 'outer;
+                }
+                break;
+            } else if let Some(v) = r.violations.first() {
+                *res.other_violations.entry(format!("{}:{}", v.props.join("+"), v.class)).or_default() += 1;
+            }
+        }
+        if any_oom {
+            res.nontrivial_digests.push(format!("{:016x}", p.digest()));
+        }
+        if res.samples.len() < 3 && p.instrs.len() <= 20 {
+            res.samples.push(serde_json::json!({"run": run, "program": p, "capacities_swept": format!("{}..={}", lo, ample.peak_inner + 1), "retry_need": need}));
+        }
+    }
+    res.wall_s = t0.elapsed().as_secs_f64();
+    let js = serde_json::to_string(&res).unwrap();
+    match out {
+        Some(o) => std::fs::write(o, js).unwrap(),
+        None => println!("{}", js),
+    }
+    if res.violations.is_empty() { 0 } else { 1 }
+}
+
 /// write the replay skeleton of (check, seed, run) with a given violation class (used by
 /// the driver when a worker process died: the class is then "abort")
 fn gen_cmd(args: &[String]) -> i32 {
@@ -309,6 +462,7 @@ fn gen_cmd(args: &[String]) -> i32 {
         features: features(),
         program: p,
         violation: Violation { props: vec![check], class, step: 0, detail: "worker process died during this run".into() },
+        retry_need: None,
     };
     std::fs::write(out, serde_json::to_string_pretty(&rp).unwrap()).unwrap();
     0
@@ -321,6 +475,7 @@ fn main() {
         Some("campaign") => campaign(&args[1..]),
         Some("replay") => replay(&args[1..]),
         Some("shrink") => shrink(&args[1..]),
+        Some("sweep") => sweep(&args[1..]),
         Some("gen") => gen_cmd(&args[1..]),
         Some("features") => {
             println!("{}", features());
